@@ -37,6 +37,8 @@ struct TecmpRecipe
     uint8_t useSerial{0};  // status payloads: 1 = take the serial number from `serial` instead of deriving it from the seed
     uint32_t serial{0};
     int32_t vendorLen{-1};  // status payloads: value of the generic part's vendor-data-length field, -1 = the usual one (24 / 0)
+    uint8_t special{0};     // bus status: 1..3 = entry (seed % entries) carries interface id 0 / all three fields 0 / all fields all-ones
+                            // (pseudo-random field values never hit the values a "missing" test would look for)
 
     void io(Ar& a)
     {
@@ -65,6 +67,7 @@ struct TecmpRecipe
         a.optionalNum("useSerial", useSerial);
         a.optionalNum("serial", serial);
         a.optionalNum("vendorLen", vendorLen);
+        a.optionalNum("special", special);
     }
 
     Bytes payload() const
@@ -122,6 +125,17 @@ struct TecmpRecipe
                     e.interfaceId = mix(seed, 100 + 3u * i);
                     e.messagesTotal = mix(seed, 101 + 3u * i);
                     e.errorsTotal = mix(seed, 102 + 3u * i);
+                    if (special && i == seed % entries)
+                    {
+                        if (special == 3)
+                            e.interfaceId = e.messagesTotal = e.errorsTotal = 0xFFFFFFFFu;
+                        else
+                        {
+                            e.interfaceId = 0;
+                            if (special == 2)
+                                e.messagesTotal = e.errorsTotal = 0;
+                        }
+                    }
                     wire::putTecmpBusEntry(p, e);
                 }
                 wire::putBytes(p, trailer);
